@@ -129,16 +129,18 @@ theorem nextG_res {lim : Nat} {s0 s : State} {p : FId} {fp0 fp : Fiber} {rest : 
           obtain ⟨hnf, hna⟩ := not_refused (checkCanResume_none hc)
           have hgn : g ∉ p :: rest := not_mem_of_not_alive c.hs hg hna
           have hgp : g ≠ p := fun h => hgn (h ▸ List.mem_cons_self ..)
-          have t1 := Tweak.setFiber (s := s) (p := p) (fp := fp) { fp with ctl := .wait cont, child := some g } c.hfp rfl rfl rfl rfl
-          have c1 := c.tweak t1
-          have hg1 : (s.setFiber p { fp with ctl := .wait cont, child := some g }).fiber? g = some fg := by
-            rw [fiber?_setFiber_ne _ _ _ _ hgp]; exact hg
-          simp only [hg1]
-          have hm : Mono (s.setFiber p { fp with ctl := .wait cont, child := some g })
-              ((s.setFiber p { fp with ctl := .wait cont, child := some g }).setFiber g { fg with status := stError }) :=
-            Mono.setFiber _ hg1 (Or.inr ⟨hnf, (by decide : stError ≠ stNew)⟩) rfl
-          refine Res.trans (t.mono.trans (t1.mono.trans hm)) (unwind_res _ _ _ _ _
-            (c1.hpo.setFiber g _ (fun sg h => c1.hpo g fg sg hg1 h)) (c1.hs.setFiber_notin g _ hgn) sigError_lt)
+          have hpg : p ≠ g := fun h => hgp h.symm
+          have hm : Mono s (s.setFiber g { fg with status := stError }) :=
+            Mono.setFiber _ hg (Or.inr ⟨hnf, (by decide : stError ≠ stNew)⟩) rfl
+          have hp2 : (s.setFiber g { fg with status := stError }).fiber? p = some fp := by
+            rw [fiber?_setFiber_ne _ _ _ _ hpg]; exact c.hfp
+          simp only [hp2]
+          have c2 : Ctx (s.setFiber g { fg with status := stError }) p fp rest :=
+            ⟨c.hstk, hp2, c.hpo.setFiber g _ (fun sg h => c.hpo g fg sg hg h), c.hs.setFiber_notin g _ hgn⟩
+          have t1 := Tweak.setFiber (s := s.setFiber g { fg with status := stError }) (p := p) (fp := fp)
+            { fp with ctl := .wait cont, child := some g, env := fp.env, kont := fp.kont } hp2 rfl rfl rfl rfl
+          have c1 := c2.tweak t1
+          refine Res.trans (t.mono.trans (hm.trans t1.mono)) (unwind_res _ _ _ _ _ c1.hpo c1.hs sigError_lt)
         · exact step_res s0 hinv
         · split
           · exact Res.stop s0 hinv.1 _
